@@ -215,23 +215,25 @@ theorem readSlot_ids {E : Env} {sl : Slot} {n m : Nat}
     rw [this]
     exact ⟨fun i hi => Or.inl (hb.1 i hi), Nat.le_refl _⟩
   | none =>
-    cases hval : validate E o sl.decl.shape n sl.decl.dflt with
+    have hd := defaultOf_le sl n
+    have hdi := defaultOf_ids sl n
+    cases hval : validate E o sl.decl.shape (defaultOf sl n).2 (defaultOf sl n).1 with
     | error e =>
-      have : readSlot E o n sl = (sl.decl.dflt, { sl with val := some sl.decl.dflt }, n) := by
+      have : readSlot E o n sl = ((defaultOf sl n).1, { sl with val := some (defaultOf sl n).1 }, (defaultOf sl n).2) := by
         simp [readSlot, hv, hval]
       rw [this]
-      exact ⟨fun i hi => Or.inl (hb.2 i (by simpa [slotIds] using hi)), Nat.le_refl _⟩
+      exact ⟨fun i hi => Or.inl (hb.2 i (hdi i (by simpa [slotIds] using hi))), hd⟩
     | ok r =>
       obtain ⟨v', n'⟩ := r
       have : readSlot E o n sl = (v', { sl with val := some v' }, n') := by simp [readSlot, hv, hval]
       rw [this]
       have hl := validate_ids o _ _ _ _ _ hval
-      refine ⟨?_, hl.1⟩
+      refine ⟨?_, Nat.le_trans hd hl.1⟩
       intro i hi
       have hi' : i ∈ ids v' := by simpa [slotIds] using hi
       rcases hl.2 i hi' with h | h
-      · exact Or.inr h
-      · exact Or.inl (hb.2 i h)
+      · exact Or.inr ⟨Nat.le_trans hd h.1, h.2⟩
+      · exact Or.inl (hb.2 i (hdi i h))
 
 /-- One iteration in deep mode, with the identity ranges: the source slot only
 gains identities allocated before `mid`, the clone's slot holds only identities
